@@ -154,7 +154,26 @@ fn trace_check(program: &Program, job: &Value) -> Value {
             bad_assert += 1;
         }
     }
-    json!({"status":"ok","rows": rows, "trace_len": n, "nonzero": bad, "bad_assertions": bad_assert, "constraints": nmain})
+    // auxiliary segment for fixed pseudo-random challenges: boundary assertions of the aux columns
+    let mut bad_aux = 0usize;
+    let mut aux_checked = 0usize;
+    if job["aux"].as_bool().unwrap_or(false) {
+        let mut trace = trace;
+        let nrand = miden_air::trace::AUX_TRACE_RAND_ELEMENTS;
+        let rand: Vec<Felt> = (0..nrand).map(|i| Felt::new(0x9e3779b97f4a7c15u64.wrapping_mul(i as u64 + 1) % 0xffffffff00000001)).collect();
+        if let Some(aux) = trace.build_aux_segment::<Felt>(&[], &rand) {
+            let mut are = winter_air::AuxTraceRandElements::<Felt>::new();
+            are.add_segment_elements(rand);
+            for a in air.get_aux_assertions(&are) {
+                aux_checked += 1;
+                if aux.get(a.column(), a.first_step()) != a.values()[0] {
+                    bad_aux += 1;
+                }
+            }
+        }
+    }
+    json!({"status":"ok","rows": rows, "trace_len": n, "nonzero": bad, "bad_assertions": bad_assert, "constraints": nmain,
+           "bad_aux_assertions": bad_aux, "aux_assertions": aux_checked})
 }
 
 /// Executes a program whose root is one span made of the given operations and checks the decoder
